@@ -42,6 +42,9 @@ pub trait Scenario: Sync + Send {
         })
     }
     fn run_one(&self, seed_r: u64, env: &Env) -> Outcome;
+    fn plan_for(&self, _seed_r: u64) -> Option<Plan> {
+        None
+    }
     /// Re-judge an explicit plan (replay / minimisation).
     fn judge_plan(&self, plan: &Plan, env: &Env) -> (Vec<Finding>, u64);
 }
@@ -71,7 +74,7 @@ pub fn absorb_summary(out: &mut Outcome, rr: &RunResult) {
             }
         }
         match inc.exit {
-            Exit::Watchdog => out.harness_errors.push("watchdog".into()),
+            Exit::Watchdog => out.harness_errors.push(format!("watchdog; last events: {:?}", inc.events.iter().rev().take(3).map(|e| format!("{} {:?} {:?}", e.t, e.op, e.msg)).collect::<Vec<_>>())),
             Exit::Code(c) if ![0, 77, 78, 79].contains(&c) => {
                 out.harness_errors.push(format!("child exit {} stderr={}", c, inc.stderr.chars().take(300).collect::<String>()))
             }
@@ -80,17 +83,18 @@ pub fn absorb_summary(out: &mut Outcome, rr: &RunResult) {
     }
 }
 
-pub fn sim_clock_ms(rr: &RunResult, plan: &Plan) -> u64 {
+pub fn sim_clock_ms(rr: &RunResult, _plan: &Plan) -> u64 {
     let mut total = 0;
-    for (i, inc) in rr.incs.iter().enumerate() {
-        for e in inc.events.iter().rev() {
-            if e.t == "summary" {
-                if let Some(v) = e.msg.as_ref().and_then(|m| serde_json::from_str::<serde_json::Value>(m).ok()) {
-                    let end = v["clock_ms"].as_u64().unwrap_or(0);
-                    total += end.saturating_sub(plan.incarnations[i].clock_start_ms);
-                }
-                break;
-            }
+    for inc in rr.incs.iter() {
+        let start = inc
+            .events
+            .iter()
+            .find(|e| e.t == "start")
+            .and_then(|e| e.msg.as_ref())
+            .and_then(|m| m.split("clock_ms=").nth(1))
+            .and_then(|s| s.trim().parse::<u64>().ok());
+        if let (Some(s), Some(e)) = (start, end_clock_ms(inc)) {
+            total += e.saturating_sub(s);
         }
     }
     total
@@ -174,6 +178,23 @@ pub struct SeqScenario {
     pub rule: &'static str,
     /// run counts as non-trivial when this stat of the model is > 0 or always
     pub trigger: fn(&Plan, &RunResult, &SeqModel) -> bool,
+    /// findings of these rule prefixes are consequences this property owns; they are renamed `<to>.<rule>`
+    pub relabel: Option<(&'static [&'static str], &'static str)>,
+}
+
+impl SeqScenario {
+    fn map_findings(&self, fs: Vec<Finding>) -> Vec<Finding> {
+        fs.into_iter()
+            .map(|mut f| {
+                if let Some((from, to)) = self.relabel {
+                    if from.iter().any(|p| f.rule.starts_with(p)) {
+                        f.rule = format!("{}.{}", to, f.rule.replace('.', "_"));
+                    }
+                }
+                f
+            })
+            .collect()
+    }
 }
 
 pub fn judge_seq(plan: &Plan, rr: &RunResult) -> (Vec<Finding>, BTreeMap<String, u64>) {
@@ -208,7 +229,7 @@ impl Scenario for SeqScenario {
         if (self.trigger)(&plan, &rr, &m) {
             out.keys.push(plan_shape_key(&plan, &rr));
         }
-        for f in m.findings.iter() {
+        for f in self.map_findings(m.findings.clone()).iter() {
             if self.owns.iter().any(|p| f.rule.starts_with(p)) {
                 out.findings.push((plan.clone(), f.clone()));
             } else if f.rule.starts_with("harness.") {
@@ -220,9 +241,13 @@ impl Scenario for SeqScenario {
         out.sample = Some(render_sample(&plan));
         out
     }
+    fn plan_for(&self, seed_r: u64) -> Option<Plan> {
+        Some(gen_seq(seed_r, &(self.opts)(seed_r)))
+    }
     fn judge_plan(&self, plan: &Plan, env: &Env) -> (Vec<Finding>, u64) {
         let rr = run_plan(&env.bins, plan, &RunOpts::default());
         let (f, _) = judge_seq(plan, &rr);
+        let f = self.map_findings(f);
         (f.into_iter().filter(|f| self.owns.iter().any(|p| f.rule.starts_with(p))).collect(), history_hash(&rr))
     }
 }
@@ -241,8 +266,37 @@ fn has_batch_read(plan: &Plan, _rr: &RunResult, _m: &SeqModel) -> bool {
         .any(|i| i.phases.iter().any(|p| p.threads.iter().any(|t| t.iter().any(|o| matches!(o.kind, OpKind::BatchRead { .. })))))
 }
 
+fn has_failed_op(_plan: &Plan, rr: &RunResult, _m: &SeqModel) -> bool {
+    rr.incs.iter().any(|i| i.events.iter().any(|e| e.t == "ret" && e.res.as_ref().map(|r| r.k != "ok").unwrap_or(false)))
+}
+
+fn has_nonconsuming(plan: &Plan, _rr: &RunResult, _m: &SeqModel) -> bool {
+    plan.incarnations.iter().any(|i| {
+        i.phases.iter().any(|p| {
+            p.threads.iter().any(|t| {
+                t.iter().any(|o| {
+                    matches!(o.kind, OpKind::ReadNext { checkpoint: false, .. } | OpKind::BatchRead { checkpoint: false, .. } | OpKind::BatchRead { start: Some(_), .. })
+                })
+            })
+        })
+    })
+}
+
+fn has_restart_with_data(_plan: &Plan, rr: &RunResult, _m: &SeqModel) -> bool {
+    rr.incs.len() >= 2
+}
+
+fn marker_checked(_plan: &Plan, _rr: &RunResult, m: &SeqModel) -> bool {
+    m.stats.get("marker_checked").copied().unwrap_or(0) > 0
+}
+
 fn count_checked(_plan: &Plan, _rr: &RunResult, m: &SeqModel) -> bool {
     m.stats.get("count_checked").copied().unwrap_or(0) > 0
+}
+
+/// The plan a scenario generates for a per-run seed (debugging aid).
+pub fn plan_for(id: &str, seed_r: u64) -> Option<Plan> {
+    scenario(id).and_then(|s| s.plan_for(seed_r))
 }
 
 pub fn scenario(id: &str) -> Option<Box<dyn Scenario>> {
@@ -253,6 +307,7 @@ pub fn scenario(id: &str) -> Option<Box<dyn Scenario>> {
             owns: &["c01.", "any."],
             rule: "seeded operation sequences (append, batch_append, read_next, batch_read with budgets, 1-3 topics, sizes 0..multi-block, fd/mmap, StrictlyAtOnce/AtLeastOnce, all fsync schedules, both geometries) executed on the real engine under the simulator and compared op by op with a reference log+cursor model; a run is non-trivial when it appends at least two entries; distinct = distinct (plan shape, schedule hash)",
             trigger: any_read,
+            relabel: None,
         }),
         "C03" => Box::new(SeqScenario {
             id: "C03",
@@ -264,6 +319,7 @@ pub fn scenario(id: &str) -> Option<Box<dyn Scenario>> {
             owns: &["c03."],
             rule: "as C01 with the mix shifted to batch reads (consuming and peeking) whose budgets are drawn from boundary sets (0, 1, next entry +-1, next two +-1, block size, usize::MAX-k); oracle: <=2000 entries, payload sum <= budget unless exactly one entry, >=1 entry whenever the reference model holds an unread entry; non-trivial = run contains a batch read",
             trigger: has_batch_read,
+            relabel: None,
         }),
         "C15" => Box::new(SeqScenario {
             id: "C15",
@@ -278,9 +334,73 @@ pub fn scenario(id: &str) -> Option<Box<dyn Scenario>> {
             owns: &["c15."],
             rule: "C01/C06-style histories (peeks, offset reads, rejected appends and clean restarts interleaved) with get_topic_entry_count queried after every operation; expected = entries of successful appends - entries actually returned by consuming reads (StrictlyAtOnce across restarts; AtLeastOnce counts are not asserted after a restart); non-trivial = at least one count compared",
             trigger: count_checked,
+            relabel: None,
+        }),
+        "C02" => Box::new(SeqScenario {
+            id: "C02",
+            opts: |_s| {
+                let mut o = SeqOpts::base("C02", "peek");
+                o.w = [25, 10, 8, 8, 5, 28, 16, 0, 0, 1];
+                o.snap_around_peeks = true;
+                o.ops = (5, 50);
+                o
+            },
+            owns: &["c02."],
+            rule: "C01 workload plus read_next(false), batch_read(checkpoint=false) and offset-addressed batch reads (offsets at 0, entry boundaries +-1, mid-payload, block multiples, beyond the end; checkpoint true and false); every peek is immediately followed by the consuming read with the same arguments; oracle: peek == consuming twin, model cursor and counts unchanged by non-consuming calls (seen through all later reads and counts), per-file/per-block reclamation bookkeeping identical before and after each non-consuming call, offset reads return only this topic's entries (first may be a suffix) in append order; non-trivial = run contains a peek or offset read",
+            trigger: has_nonconsuming,
+            relabel: Some((&["c01.", "c15.", "c03.no_progress"], "c02")),
+        }),
+        "C06" => Box::new(SeqScenario {
+            id: "C06",
+            opts: |s| {
+                let mut o = SeqOpts::base("C06", "restart");
+                o.w = [30, 12, 18, 18, 6, 4, 2, 0, 4, 2];
+                o.incarnations = (2, 5);
+                o.ops = (8, 70);
+                o.p_same_process_restart = if s % 2 == 0 { 0.04 } else { 0.0 };
+                o.clock_jumps = true;
+                o
+            },
+            owns: &["c06.", "any."],
+            rule: "histories with 2-5 incarnations (fresh process each) and optional same-process reopen, clean shutdown = drop + exit; rejected operations, peeks and payloads up to multi-block interleaved; the simulated wall clock moves by {+1ms,+50ms,+1h,+1d,0,-1ms,-40ms,-2s,-1h,-1y} between incarnations; the reference model has no restart operation: StrictlyAtOnce must match it exactly, AtLeastOnce may redeliver but never lose or reorder; counts after reopen are asserted for StrictlyAtOnce; non-trivial = at least one reopen with data present",
+            trigger: has_restart_with_data,
+            relabel: Some((&["c01.", "c15.", "c03.no_progress"], "c06")),
+        }),
+        "C17" => Box::new(SeqScenario {
+            id: "C17",
+            opts: |s| {
+                let mut o = SeqOpts::base("C17", "markers");
+                o.w = [20, 5, 4, 4, 0, 0, 0, 60, 3, 8];
+                o.ops = (3, 25);
+                o.max_topics = 3;
+                o.incarnations = (1, 3);
+                o.p_same_process_restart = if s % 2 == 0 { 0.1 } else { 0.0 };
+                o.allow_big = false;
+                o.p_real = 0.02;
+                o
+            },
+            owns: &["c17."],
+            rule: "histories of append / mark_topic_clean / mark_topic_dirty / topic_is_clean / sleep over 1-3 topics with clean shutdown (drop, then process exit or same-process reopen) at any delay including immediately; the marker persister thread is scheduled by the simulator (never, once, or between every operation); oracle: last completed call wins, immediately and after every reopen; non-trivial = at least one marker query compared",
+            trigger: marker_checked,
+            relabel: None,
+        }),
+        "C04" => Box::new(SeqScenario {
+            id: "C04",
+            opts: |_s| {
+                let mut o = SeqOpts::base("C04", "reject");
+                o.w = [25, 12, 12, 12, 4, 0, 0, 0, 25, 1];
+                o.ops = (5, 40);
+                o.incarnations = (1, 2);
+                o.alo_p = 0.0;
+                o
+            },
+            owns: &["c04."],
+            rule: "histories in which rejected appends (over 2000 entries, over the byte cap, oversized entry alone or inside a batch, topic name too long for the header, empty batch) are interleaved with successful ones; a failed operation leaves the reference model untouched, and every later read, count and the reads after a clean restart in a fresh process must agree with it; non-trivial = at least one operation returned an error",
+            trigger: has_failed_op,
+            relabel: Some((&["c01.", "c15.", "c03.no_progress", "c06."], "c04")),
         }),
         _ => return None,
     })
 }
 
-pub const ALL_IDS: &[&str] = &["C01", "C03", "C15"];
+pub const ALL_IDS: &[&str] = &["C01", "C02", "C03", "C04", "C06", "C15", "C17"];
